@@ -133,7 +133,7 @@ impl Prop for AddSub {
             cx.nt("receiver_on_an_outermost_day");
         }
         let ia = c.a.i();
-        let off = Offset::Fixed(c.off);
+        let mut off = Offset::Fixed(c.off);
         // expected
         let (is_date, amount, sub): (bool, i128, bool) = match &c.op {
             Op::Unit { unit, count, sub } => {
@@ -225,8 +225,14 @@ impl Prop for AddSub {
                 ((r.timestamp() as i128 + tl::EPOCH_1970_S as i128) * tl::NS, None)
             })
         } else {
-            let d0 = match catch(|| if late { mk_dt_off_late(ia, c.off) } else { mk_dt_off_any(ia, c.off) }) {
-                Ok(d) => d,
+            let d0 = match catch(|| if late { (mk_dt_off_late(ia, c.off), false) } else { mk_dt_off_pin(ia, c.off) }) {
+                Ok((d, local)) => {
+                    if local {
+                        cx.nt("offset_carried_as_Offset::Local");
+                        off = Offset::Local;
+                    }
+                    d
+                }
                 Err(p) => return fail("c04.harness_build", "receiver builds", p.short()),
             };
             catch(|| {
